@@ -42,6 +42,7 @@ class Contracts:
     @@ loopbody FN K / loopend FN K ghost text inserted at the start / end of the K-th loop body of FN
     @@ looppost FN K                ghost text inserted right after the K-th loop of FN
     @@ armpre FN "PATTERN"          ghost text inserted at the start of the arm PATTERN of FN's tail match (needs `arms`)
+    @@ innermatch FN "PATTERN"      the first `match` inside that arm has arms that are obligations of their own
     @@ bodypre FN                   ghost text inserted right after the opening brace of FN's body
     """
 
@@ -57,6 +58,7 @@ class Contracts:
         self.loopend = {}   # (fn, k) -> ghost text inserted at the end of the loop body
         self.looppost = {}  # (fn, k) -> ghost text inserted after the loop statement
         self.armpre = {}    # (fn, arm pattern) -> ghost text inserted at the start of that arm of the tail match
+        self.innermatch = set()  # (fn, arm pattern): the arm's first inner match is split into sub-obligations
         self.bodypre = {}  # fn -> ghost text inserted right after the opening brace of the body
         self.drop = set()
         self.extbody = set()
@@ -91,6 +93,12 @@ class Contracts:
                 elif kind == 'bodypre':
                     cur = []
                     self.bodypre[parts[1]] = cur
+                elif kind == 'innermatch':
+                    m = re.match(r'@@\s*innermatch\s+(\S+)\s+"(.*)"\s*$', raw)
+                    if not m:
+                        raise SystemExit("bad innermatch line in %s: %s" % (path, raw))
+                    self.innermatch.add((m.group(1), m.group(2)))
+                    cur = None
                 elif kind == 'armpre':
                     m = re.match(r'@@\s*armpre\s+(\S+)\s+"(.*)"\s*$', raw)
                     if not m:
@@ -317,6 +325,18 @@ def splice(s, con, rw, fnmap_sink, focus=None):
                         pre_used.add(pat)
                     rw.count('split-pruned-arm', 1)
                     continue
+                if (fname, pat) in con.innermatch:
+                    im = rsrc.inner_match(s, arm['body_start'], arm['body_end'])
+                    if im is None:
+                        raise LostAnchor("fn %s arm %s: inner match not found" % (fname, pat))
+                    fi = (focus or {}).get('inner', {}).get((fname, arm_index))
+                    if fi is not None:
+                        for j, ia in enumerate(rsrc.match_arms(s, im[1], im[2])):
+                            if j not in fi:
+                                edits.append((ia['body_start'], ia['body_end'] - ia['body_start'],
+                                              '{ assume(false); vstd::pervasive::unreached() }'))
+                                rw.count('split-pruned-inner-arm', 1)
+                    fnmap_sink.setdefault((fname, nth), {}).setdefault('inner', []).append(pat)
                 pre = con.armpre.get((fname, pat))
                 if pre is not None:
                     pre_used.add(pat)
@@ -339,7 +359,7 @@ def splice(s, con, rw, fnmap_sink, focus=None):
                     raise LostAnchor("fn %s: arm `%s` not found (armpre)" % (fname, pat))
             rw.count('T5', len(arms))
             fnmap_sink.setdefault((fname, nth), {})['arms'] = True
-        fnmap_sink.setdefault((fname, nth), {})
+        fnmap_sink.setdefault((fname, nth), {})['clauses'] = clauses
 
     for (fname, k), spec in con.loops.items():
         if fname not in names or fname in con.drop:
@@ -414,9 +434,10 @@ def splice(s, con, rw, fnmap_sink, focus=None):
         rw.count('T4-hint', 1)
 
     # arm splitting: edits that fall inside a pruned arm disappear with it
-    pruned = [(e[0], e[0] + e[1]) for e in edits if e[2].startswith('return { assume(false); vstd::pervasive::unreached() }')]
+    PR = ('return { assume(false); vstd::pervasive::unreached() }', '{ assume(false); vstd::pervasive::unreached() }')
+    pruned = [(e[0], e[0] + e[1]) for e in edits if e[2].startswith(PR)]
     if pruned:
-        edits = [e for e in edits if e[2].startswith('return { assume(false); vstd::pervasive::unreached() }')
+        edits = [e for e in edits if e[2].startswith(PR)
                  or not any(a <= e[0] < b or (e[0] == b and e[1] == 0 and e[2] == ',') for a, b in pruned)]
     # apply edits in source order
     edits.sort(key=lambda e: (e[0], e[1]))
@@ -531,13 +552,27 @@ def extract(unit, repo, out_path, features=None, focus=None):
     region = text[src_start:post_start]
     for (fname, nth), (rel, info) in wanted.items():
         a, bo, bc = rsrc.find_fn(region, fname, nth)
+        cl = info.get('clauses') or ''
+        if cl.strip():
+            # the spliced contract may contain braces (`match res { .. }`): the body is the first `{` after it
+            ci = region.find(cl, a)
+            if ci < 0:
+                raise LostAnchor("internal: contract text of %s not found in the generated file" % fname)
+            bo = region.index('{', ci + len(cl))
+            bc = rsrc.match_close(region, bo)
         key = fname if nth == 0 else '%s#%d' % (fname, nth)
         e = dict(file=rel, line_start=ln(src_start + a), line_end=ln(src_start + bc), arms=[])
         if info.get('arms'):
             tm = rsrc.tail_match(region, bo, bc)
             for arm in rsrc.match_arms(region, tm[1], tm[2]):
-                e['arms'].append(dict(pat=re.sub(r'\s+', ' ', arm['pat']),
-                                      line_start=ln(src_start + arm['pat_start']), line_end=ln(src_start + arm['body_end'])))
+                pat = re.sub(r'\s+', ' ', arm['pat'])
+                ent = dict(pat=pat, line_start=ln(src_start + arm['pat_start']), line_end=ln(src_start + arm['body_end']), sub=[])
+                if pat in info.get('inner', []):
+                    im = rsrc.inner_match(region, arm['body_start'], arm['body_end'])
+                    for ia in rsrc.match_arms(region, im[1], im[2]):
+                        ent['sub'].append(dict(pat=re.sub(r'\s+', ' ', ia['pat']), line_start=ln(src_start + ia['pat_start']),
+                                               line_end=ln(src_start + ia['body_end'])))
+                e['arms'].append(ent)
         fn_ranges[key] = e
     with open(out_path, 'w', encoding='utf-8') as f:
         f.write(text)
